@@ -62,6 +62,23 @@ func runSolver(sp solverSpec, file string, timeoutS int, seed int) SolveResult {
 	return r
 }
 
+// runCover runs a reachability query: E-matching only (a contradiction among the assumptions shows up as unsat quickly),
+// then the default configuration for a possible sat answer.
+func runCover(file string, timeoutS int, seed int) SolveResult {
+	sp := solverSpec{"z3-new", func(f string, t int, seed int) []string {
+		return []string{"z3-new", fmt.Sprintf("-T:%d", t), "smt.mbqi=false", f}
+	}}
+	r := runSolver(sp, file, timeoutS, seed)
+	if r.Verdict == "unsat" || r.Verdict == "sat" {
+		return r
+	}
+	r2 := runSolver(solvers[2], file, timeoutS, seed) // cvc5 enumerative instantiation finds inconsistent axiom sets
+	if r2.Verdict == "unsat" || r2.Verdict == "sat" {
+		return r2
+	}
+	return r
+}
+
 // discharge tries the solvers on a query file. all=true runs every solver and cross-checks.
 func discharge(file string, timeoutS int, seed int, all bool) (SolveResult, []SolveResult) {
 	var tried []SolveResult
